@@ -202,7 +202,7 @@ impl Enum15 {
             let r = guarded(|| op(&mut g));
             faults.disarm();
             let tag = format!("{name}|{call}");
-            w.out.cov.eval(Some(fnv(format!("{tag}|{i}|{second:?}").as_bytes())));
+            w.out.cov.eval(Some(fnv(format!("{tag}|{i}|{second:?}|{:?}|R{}", w.cfg.backend, w.cfg.retention).as_bytes())));
             w.out.cov.bump(&format!("fault_point:{call}"));
             match r {
                 Ok(Ok(_)) => {
@@ -381,7 +381,7 @@ impl Enum15 {
         w.out.cov.add(&format!("storage_calls:{name}"), calls.len() as u64);
         for (i, call) in calls.iter().enumerate() {
             let tag = format!("{name}|{call}");
-            w.out.cov.eval(Some(fnv(format!("{tag}|{i}").as_bytes())));
+            w.out.cov.eval(Some(fnv(format!("{tag}|{i}|{:?}|R{}", w.cfg.backend, w.cfg.retention).as_bytes())));
             w.out.cov.bump(&format!("fault_point:{call}"));
             faults.arm(i as i64);
             let r = {
